@@ -64,6 +64,15 @@ def _unbound(pid, v):
     return False
 
 
+@scope("F-GENERIC-BASE-RESOLUTION")
+def _generic_base_resolution(pid, v):
+    f = (v["case"].get("facts") or {})
+    pat = f.get("generic_inheritance")
+    return pid == "C01" and (
+        (pat in ("typevar-reused", "base-of-nested-arg") and (v["clause"], v["outcome"]) == ("build-failed", "RecursionError"))
+        or (pat == "swapped-order" and (v["clause"], v["outcome"]) == ("encode-raised", "AttributeError")))
+
+
 @scope("F-SCHEMA-LITERAL-UNDER-STRATEGY")
 def _schema_literal_strategy(pid, v):
     import json as _json
